@@ -787,7 +787,8 @@ class Walker:
                     continue
                 s3 = s2.copy()
                 s3.ev("store", self.site(node), ("attr", b, t.attr), val)
-                if isinstance(b, tuple) and ((len(b) == 3 and b[0] == "obj") or (b, t.attr) in s3.env.get("$heap", {})):
+                if isinstance(b, tuple) and ((len(b) == 3 and b[0] == "obj") or (b, t.attr) in s3.env.get("$heap", {}) or (b[0] == "param" and self.fi.cls and "$caller_env" not in s3.env)):
+                    # (attributes of a parameter of a method: later reads in this walk see the store)
                     heap_store(s3, b, t.attr, val)
                 outs.append((s3, "fall", None))
             return outs
